@@ -28,7 +28,7 @@ func init() {
 		Phases: func(tier string, seed int64) []Phase {
 			return []Phase{{Name: "upgrades", Race: true, Run: c13Run}}
 		},
-		MinObserved: []string{"sessions_checked", "tls_records_classified", "post_upgrade_requests_compared", "sessions_open_and_idle_at_stop", "upgrades_served_by_the_default_route", "requests_answered_after_think_time", "handshakes_failed_or_abandoned_by_other_sessions", "sessions_with_an_answered_request_before_the_upgrade", "rendezvous_inside_the_tunnel_satisfied", "high_volume_sessions_after_upgrade", "plaintext_requests_sent_in_the_same_write_as_starttls", "sessions_whose_first_record_is_not_labelled_3_1"},
+		MinObserved: []string{"sessions_checked", "tls_records_classified", "post_upgrade_requests_compared", "sessions_open_and_idle_at_stop", "upgrades_served_by_the_default_route", "requests_answered_after_think_time", "handshakes_failed_or_abandoned_by_other_sessions", "sessions_with_an_answered_request_before_the_upgrade", "rendezvous_inside_the_tunnel_satisfied", "high_volume_sessions_after_upgrade", "plaintext_requests_sent_in_the_same_write_as_starttls", "sessions_whose_first_record_is_not_labelled_3_1", "tunnel_requests_checked_against_the_upgrade_handlers_return", "last_requests_sent_together_with_close_notify"},
 	})
 }
 
@@ -155,6 +155,40 @@ type firstRecordVersion struct {
 	done  bool
 }
 
+// corkConn holds back what is written while it is corked and sends it in ONE write when it is closed: a client whose
+// last request and close_notify leave in the same segment.
+type corkConn struct {
+	net.Conn
+	mu     sync.Mutex
+	corked bool
+	held   []byte
+}
+
+func (k *corkConn) Write(p []byte) (int, error) {
+	k.mu.Lock()
+	defer k.mu.Unlock()
+	if k.corked {
+		k.held = append(k.held, p...)
+		return len(p), nil
+	}
+	return k.Conn.Write(p)
+}
+
+func (k *corkConn) Close() error {
+	k.mu.Lock()
+	if len(k.held) > 0 {
+		// (crypto/tls sets the write deadline to "now" once it has written its close_notify)
+		k.Conn.SetWriteDeadline(time.Time{})
+		k.Conn.Write(k.held)
+		k.held = nil
+	}
+	k.mu.Unlock()
+	if t, ok := k.Conn.(*net.TCPConn); ok {
+		return t.CloseWrite()
+	}
+	return k.Conn.Close()
+}
+
 func (f *firstRecordVersion) Write(p []byte) (int, error) {
 	if !f.done && len(p) >= 5 && p[0] == 0x16 && p[1] == 0x03 {
 		f.done = true
@@ -204,7 +238,17 @@ func c13Timed(c *Ctx, pki *PKI, tm c13Timing, par int, ti int) {
 	rc := &Recorder{}
 	// every third timing lets the DEFAULT route perform the upgrade (a mux without an explicit StartTLS route)
 	viaDefault := ti%3 == 2
+	var upMu sync.Mutex
+	upEnter, upExit := map[int]int64{}, map[int]int64{}
 	upgrade := func(w *gldap.ResponseWriter, r *gldap.Request) {
+		upMu.Lock()
+		upEnter[r.ConnectionID()] = nextSeq()
+		upMu.Unlock()
+		defer func() {
+			upMu.Lock()
+			upExit[r.ConnectionID()] = nextSeq()
+			upMu.Unlock()
+		}()
 		time.Sleep(time.Duration(tm.D1) * time.Millisecond)
 		resp := r.NewExtendedResponse(gldap.WithResponseCode(gldap.ResultSuccess))
 		resp.SetResponseName(gldap.ExtendedOperationStartTLS)
@@ -362,6 +406,51 @@ func c13Timed(c *Ctx, pki *PKI, tm c13Timing, par int, ti int) {
 				}
 			}
 			c.Count("plaintext_requests_sent_in_the_same_write_as_starttls", 1)
+		}()
+	}
+	// a TLS 1.2 client whose last request inside the tunnel and whose close_notify leave in one segment (what a client
+	// library does on "unbind and close"): the request is served like any other
+	lastDN := fmt.Sprintf("cn=last-request-%d", ti)
+	lastSent := false
+	if !c.MuteViolations && tm.D1+tm.D2+tm.D3 <= 200 {
+		wg.Add(1)
+		go func() {
+			defer wg.Done()
+			cn, err := net.Dial("tcp", srv.Addr)
+			if err != nil {
+				return
+			}
+			defer cn.Close()
+			cl := wrapClient(cn)
+			cl.Send(sber.Message(1, sber.ExtendedRequest([]byte(sber.OIDStartTLS), nil, false), nil).Encode())
+			if _, err := cl.ReadMsg(c13Wait); err != nil {
+				return
+			}
+			ck := &corkConn{Conn: cn}
+			cfg12 := pki.ClientPlain.Clone()
+			cfg12.MaxVersion = tls.VersionTLS12
+			tc := tls.Client(ck, cfg12)
+			cn.SetDeadline(time.Now().Add(c13Wait))
+			if tc.Handshake() != nil {
+				return
+			}
+			cn.SetDeadline(time.Time{})
+			tcl := wrapClient(tc)
+			tcl.Send(sber.Message(2, sber.BindRequest(3, []byte("cn=x"), []byte("p")), nil).Encode())
+			if _, err := tcl.ReadMsg(c13Wait); err != nil {
+				return
+			}
+			ck.mu.Lock()
+			ck.corked = true
+			ck.mu.Unlock()
+			tc.Write(sber.Message(3, sber.DelRequest([]byte(lastDN)), nil).Encode())
+			tc.Close() // close_notify goes into the cork, then everything leaves in one write, followed by FIN
+			mu.Lock()
+			lastSent = true
+			mu.Unlock()
+			cn.SetReadDeadline(time.Now().Add(2 * time.Second))
+			io.Copy(io.Discard, cn)
+			c.Count("last_requests_sent_together_with_close_notify", 1)
 		}()
 	}
 	for s := 0; s < par; s++ {
@@ -581,6 +670,29 @@ func c13Timed(c *Ctx, pki *PKI, tm c13Timing, par int, ti int) {
 	for _, o := range rc.All() {
 		byID[o.ID] = o
 	}
+	if lastSent {
+		found := false
+		for _, o := range rc.All() {
+			if o.Kind == "delete" && string(o.DN) == lastDN {
+				found = true
+			}
+		}
+		if !found {
+			c.Violate("request inside the tunnel never reached its handler", fmt.Sprintf("a TLS 1.2 session's last request, sent in the same segment as its close_notify, was not served (handler delays %v)", tm), map[string]any{"timing": tm})
+		}
+	}
+	// nothing is dispatched on a connection between the moment its StartTLS handler was entered and the moment it returned
+	upMu.Lock()
+	for _, o := range rc.All() {
+		if en, ok := upEnter[o.ConnID]; ok && o.Seq > en {
+			if ex, done := upExit[o.ConnID]; !done || o.Seq < ex {
+				c.Violate("a request was dispatched while the connection's StartTLS handler was still running", fmt.Sprintf("%s request (message id %d) entered its handler at stamp %d; the StartTLS handler of that connection ran from %d to %d (handler delays %v)", o.Kind, o.ID, o.Seq, en, upExit[o.ConnID], tm), map[string]any{"timing": tm, "observed": o})
+				break
+			}
+			c.Count("tunnel_requests_checked_against_the_upgrade_handlers_return", 1)
+		}
+	}
+	upMu.Unlock()
 	for _, o := range rc.All() {
 		if o.Kind == "bind" && string(o.Name) == smuggled {
 			c.Violate("plaintext bytes sent behind the StartTLS request were served", fmt.Sprintf("a bind sent in the clear in the same write as the StartTLS request reached the %s handler (handler delays %v)", o.Route, tm), map[string]any{"timing": tm, "observed": o})
